@@ -29,6 +29,9 @@ def DaeIc(dae: nDAE, y0: np.ndarray, t0, rtol):
     Check and solve for more consistent initial values of algebraic variables in DAEs
     Only supports mass matrix with one-entry in each column/row.
     """
+    # residuals and Newton updates in double precision whatever the dtype of the start array
+    # (float32 / integer values are kept exactly; a float64 array is passed through unchanged)
+    y0 = np.asarray(y0, dtype=np.float64)
     M = dae.M
     p = dae.p
     F0 = dae.F(t0, y0, p)
